@@ -515,6 +515,9 @@ def judgeRead (rep : Report) (id tag : String) (cfg : Cfg) (bytes : Bytes) (fail
   rep := rep.bump s!"impl_{impl.cls}"
   let mk := s!"{tag}:{impl.cls}"
   rep := rep.bump s!"hist {mk}"
+  -- a header that announces more than 2^20 entities makes the reader allocate and default-fill them for every
+  -- property before it can notice that the data is missing: slow under ASan, not a hang (it terminates)
+  if impl.cls == "hang" && headerHuge bytes then return rep.bump "skipped_huge_slow"
   if impl.cls == "crash" || impl.cls == "hang" then
     return rep.fail id s!"reader-{impl.cls}" s!"{impl.detail} [{tag}, kind {kindChar cfg.kind}, topology_check {cfg.topoCheck}, fault {failAt}]" bytes
   let ex := expectOf cfg bytes failAt
